@@ -419,7 +419,7 @@ def run_plain(case):
 
 
 # ---- generation -------------------------------------------------------------------------------------
-BASE_NAMES = ['c$a', 'c$b', 'c$x', 'c$y', 'c$z', 'k$g', 'time', 'c$w']
+BASE_NAMES = ['c$a', 'c$b', 'c$x', 'c$y', 'c$z', 'k$g', 'time', 'c$w', 'B$a', 'c$aa', 'd$v', 'Z', 'c$a_b']
 EXTRA_NAMES = ['n$p', 'n$q', 'c$a', 'c$x', 'r', 'c__a']
 CMETAS = ['id_a', 'id_b', 'c__a', 'c__b', 'c__a_', 'time', 'mid']
 
@@ -474,7 +474,7 @@ def gen_rhs(rng, allowed, tvar, qcount, states=()):
 
 def gen_case(seed, profile='edit'):
     rng = random.Random(seed)
-    nbase = rng.randint(4, 7)
+    nbase = rng.randint(7, 12) if profile == 'query' else rng.randint(4, 7)
     names = BASE_NAMES[:nbase]
     tvar = names.index('time') if 'time' in names else nbase - 1
     base = []
@@ -528,7 +528,7 @@ def gen_case(seed, profile='edit'):
     ops = []
     nvars = nbase
     for e in range(ncore):
-        if rng.random() < 0.85:
+        if rng.random() < (0.97 if profile == 'query' else 0.85):
             ops.append(['addeq', e, True])
     nops = rng.randint(8, 25)
     queries = ['q_eqs', 'q_states', 'q_graph', 'q_ngraph', 'q_vars', 'q_free', 'q_derivs', 'q_derived']
